@@ -7,6 +7,7 @@ mod util;
 mod c16;
 mod c02;
 mod c03;
+mod c07;
 mod net;
 mod netcheck;
 mod rank;
@@ -43,6 +44,7 @@ fn main() {
                 "matrix" => c16::replay(&ctx, &doc),
                 "net" => netcheck::replay(&ctx, &doc),
                 "block" => c02::replay(&ctx, &doc),
+                "xbuild" => c07::replay(&ctx, &doc),
                 "trial" => c03::replay(&ctx, &doc),
                 e => {
                     eprintln!("HARNESS-ERROR: unknown engine {e}");
@@ -50,9 +52,11 @@ fn main() {
                 }
             }
         }
+        "c07-digests" => c07::cmd_digests(&args[2..]),
+        "c07-exec" => c07::cmd_exec(&args[2..]),
         "prof" => {
             let p = match args[2].as_str() { "C08" => sim::Profile::C08, "C18" => sim::Profile::C18, "C07" => sim::Profile::C07, _ => sim::Profile::C01 };
-            netcheck::prof(p, args.get(3).and_then(|s| s.parse().ok()).unwrap_or(300), util::DEFAULT_SEED);
+            netcheck::prof(p, args.get(3).and_then(|s| s.parse().ok()).unwrap_or(300), util::DEFAULT_SEED, args.get(4).and_then(|s| s.parse().ok()).unwrap_or(400));
             0
         }
         prop => {
@@ -62,6 +66,7 @@ fn main() {
                 #[cfg(feature = "rq-std")]
                 "C16" => c16::run(&ctx),
                 "C02" => c02::run(&ctx),
+                "C07" => c07::run(&ctx),
                 "C03" => c03::run(&ctx),
                 "C01" => netcheck::run(&ctx, sim::Profile::C01),
                 "C08" => netcheck::run(&ctx, sim::Profile::C08),
